@@ -134,9 +134,9 @@ pub fn configs_c12(tier: Tier) -> Vec<Box<dyn Config>> {
             let mut h = LayHarness::<L>::new(coll, Plan::Zero, u, false);
             h.try_reserve_probes = true;
             let l = format!("{}-try_reserve", h.label());
-            v.push(Box::new(BfsConfig::new(l, h, Limits { max_wall_s: if tier == Tier::Quick { 30.0 } else { 600.0 }, ..Default::default() })));
+            v.push(Box::new(BfsConfig::new(l, h, Limits { max_wall_s: if tier == Tier::Quick { 30.0 } else { 150.0 }, ..Default::default() })));
         }
-        let u = if q { 4 } else { 8 };
+        let u = if q { 4 } else { 6 };
         for coll in [Coll::Set, Coll::Map, Coll::Table] {
             tr::<Z0>(&mut v, coll, u, tier);
             tr::<S1>(&mut v, coll, u, tier);
